@@ -30,9 +30,9 @@ func init() {
 			"a complete descriptor followed by zero payload bytes may be rejected",
 		},
 		Strata: []fw.Stratum{
-			{Name: "payloader-instances", N: fw.Const(30000, 3000000), Run: c12Pay},
-			{Name: "header-parser", N: fw.Const(60000, 6000000), Run: c12Hdr},
-			{Name: "descriptor-decoder", N: fw.Const(120000, 12000000), Run: c12Dec},
+			{Name: "payloader-instances", N: fw.Const(150000, 4000000), Run: c12Pay},
+			{Name: "header-parser", N: fw.Const(300000, 8000000), Run: c12Hdr},
+			{Name: "descriptor-decoder", N: fw.Const(600000, 15000000), Run: c12Dec},
 		},
 	})
 }
